@@ -1293,7 +1293,9 @@ pub fn gen_headers(seed: u64) -> HeadersScenario {
         }
         "missing-mandatory" => {
             let pseudos: Vec<usize> = fields.iter().enumerate().filter(|(_, (n, _))| n.first() == Some(&b':') && n.as_slice() != b":authority").map(|(i, _)| i).collect();
-            if pseudos.is_empty() || (is_req && method == "CONNECT" && kind == MsgKind::Request) {
+            // (a HEADERS block without :status cannot be told apart as "interim": that case is the
+            // Response kind's missing-status)
+            if pseudos.is_empty() || kind == MsgKind::Interim || (is_req && method == "CONNECT" && kind == MsgKind::Request) {
                 defect = None;
             } else {
                 let i = *rng.pick(&pseudos);
